@@ -50,6 +50,8 @@ func init() {
 			ruleBTSentinel(c)
 			ruleArrBound(c)
 			ruleBTArrMap(c)
+			ruleStrTotal(c)
+			ruleUNTotal(c)
 		})
 
 	register("C13",
@@ -82,6 +84,7 @@ func init() {
 			ruleOMValid(c)
 			ruleFLTotal(c)
 			ruleCDNum(c)
+			ruleParseTime(c)
 		})
 }
 
@@ -104,6 +107,7 @@ func init() {
 			ruleRegOverwrite(c)
 			ruleSGRepeat(c)
 			ruleSGComp(c)
+			ruleSGTypeOnly(c)
 		})
 }
 
@@ -138,6 +142,7 @@ func init() {
 		func(c *Ctx) {
 			ruleSGRepeat(c)
 			ruleSGComp(c)
+			ruleStrTotal(c)
 			ruleSKFail(c)
 			ruleWAWR(c, nil, 27)
 			ruleWALenCnt(c)
@@ -223,6 +228,7 @@ func init() {
 			ruleERUse(c)
 			ruleODBank(c, findReadFile(c.P))
 			ruleODDeliver(c, findReadFile(c.P))
+			ruleLKPair(c)
 			s := findReadFile(c.P)
 			c.Rule("NIL-IFACE", "no nil interface value can reach the receiver of the decompress call", 1)
 			if rfDecide(c, "codec") {
